@@ -22,7 +22,7 @@ CONTRACTS = {
               "props": ["C03"], "families": ["expr_value"]},
     "_expression": {"params": ["expr"], "reads": ["_VAR", "_PARAMS"], "modifies": ["_PARAMS"], "raises": "any", "spec": "spec__expression",
                     "props": ["C03", "C02", "C05", "C08", "C11", "C15", "C04", "C01", "C06"], "families": ["expr_value", "illformed"]},
-    "_get_arguments": {"params": ["arguments"], "reads": ["_VAR", "_PARAMS"], "modifies": ["_PARAMS"], "raises": "any", "spec": "spec__get_arguments",
+    "_get_arguments": {"params": ["arguments"], "reads": ["_VAR", "_PARAMS"], "modifies": ["_PARAMS"], "raises": "any", "spec": "spec__get_arguments", "rename": {"values": "kwargslist"},
                        "props": ["C02", "C04", "C08", "C11", "C01", "C19"], "families": ["load_denote", "illformed"]},
 }
 
